@@ -60,6 +60,31 @@ func runLedgerConc(p *Plan, tape *simrt.Tape, opt RunOpt) *RunOut {
 		if cs.viol != nil || d.Viol != nil {
 			return
 		}
+		if p.x("bgtiny", 0) == 1 {
+			// idle store, background collector with a tiny time limit: within 40
+			// GC intervals there must be an instant at which the freelist file is
+			// empty and no hand-over file with entries exists (all handed over and
+			// processed)
+			if err := d.St.Flush(); err != nil {
+				d.fail("ledger/flush-error", "Flush failed: %v", err)
+				return
+			}
+			drained := false
+			for i := 0; i < 40*20 && !drained; i++ {
+				simrt.Sleep(d.Cfg.GCMs * 1000000 / 20)
+				files := fsOf().Files()
+				drained = len(files[indexPath+".free"]) == 0 && len(files[indexPath+".free.gc"]) == 0
+			}
+			if !drained {
+				files := fsOf().Files()
+				d.fail("ledger/bg-handover-never-processed", "idle store, background primary GC every %d ms with a time limit of %d ms on a disk with %d us per operation: after 40 GC intervals the freelist file still holds %d bytes and the hand-over file %d bytes; the freelist pass of a cycle is not subject to the time limit, so the entries should have been handed over and processed", d.Cfg.GCMs, d.Cfg.GCLimitMs, p.Sim.Latency.Base/1000, len(files[indexPath+".free"]), len(files[indexPath+".free.gc"]))
+				return
+			}
+			d.cprobe("bg-handover-drained")
+			// the rest runs explicit cycles: no background collectors next to them
+			d.Cfg.GCMs = 1000 * 3600 * 1000
+			d.Cfg.GCLimitMs = 0
+		}
 		// Close writes everything that is still pooled (Store.Flush skips the
 		// freelist when neither index nor primary has work), then reopen to look
 		// at the index again
@@ -589,7 +614,25 @@ func genC13Conc(seed uint64, tier string) *Plan {
 	for i := 0; i < 2+r.Intn(6); i++ {
 		g = append(g, Op{K: "sleep", A: 1 + r.Intn(1500)}, Op{K: "pgc", A: thr})
 	}
-	p.Clients = append(p.Clients, fl, g)
+	if r.Chance(0.15) {
+		// background variant: no explicit GC client; the store's own primary
+		// collector runs on a short interval with a time limit that is shorter
+		// than one pass over the hand-over file on a slow disk. The freelist pass
+		// of a cycle is not subject to the time limit, so every entry must still
+		// be handed over and processed while the store is idle afterwards.
+		p.X["bgtiny"] = 1
+		p.X["reloc"] = 1 // the collector's low-use threshold applies: structural checks
+		p.Cfg.GCMs = int64(2 + r.Intn(9))
+		p.Cfg.GCLimitMs = 1
+		p.Cfg.Flusher = true
+		p.Sim.Latency = LatencyCfg{Kind: "const", Base: int64(1000 * (100 + r.Intn(250)))}
+		// the bound below is stated in simulated time: no timing faults in this
+		// variant (a collector descheduled for 30 ms would simply be late)
+		p.Sim.PreemptEvery, p.Sim.PreemptNs, p.Sim.JitterNs, p.Sim.SlowMod = 0, 0, 0, 0
+		p.Clients = append(p.Clients, fl)
+	} else {
+		p.Clients = append(p.Clients, fl, g)
+	}
 	p.X["writers"] = nw
 	return p
 }
